@@ -848,6 +848,17 @@ impl<'tera> VirtualMachine<'tera> {
                     } else {
                         &root
                     };
+                    // The last attribute can be there but hold an undefined value
+                    if val.is_undefined() {
+                        let span = chunk
+                            .get_span_at(current_ip, num_attrs)
+                            .expect("to have a span for error");
+                        return Err(self.rendering_error(
+                            "Tried to render a variable that is not defined".to_string(),
+                            chunk,
+                            span,
+                        ));
+                    }
 
                     if !self.autoescape_enabled() || val.is_safe() {
                         if let Some(captured) = state.capture_buffers.last_mut() {
